@@ -35,7 +35,13 @@ Inductive extfn :=
 | X_tv_validate | X_tv_match_notes | X_tv_match_notes_tail
 | X_util_f_measure | X_util_match_events | X_util_intervals_to_boundaries
 | X_onset_validate | X_beat_validate | X_segment_validate_boundary
-| X_mp_compute_accuracy | X_mp_compute_err_score.
+| X_mp_compute_accuracy | X_mp_compute_err_score
+| X_chord_dhd | X_chord_overseg | X_chord_underseg
+| X_util_validate_intervals
+(* NumPy functions used as primitives (their signatures are fixed in the translator) *)
+| X_np_round | X_np_ravel | X_np_unique | X_np_diff | X_np_abs | X_nd_flatten | X_np_allclose
+| X_np_subtract_outer | X_nd_min | X_np_median
+| X_chord_encode_many.
 Local Open Scope string_scope.
 Definition callee_names : list (string * extfn) :=
   [("transcription.validate", X_tr_validate); ("transcription.validate_intervals", X_tr_validate_intervals);
@@ -48,7 +54,12 @@ Definition callee_names : list (string * extfn) :=
    ("util.intervals_to_boundaries", X_util_intervals_to_boundaries);
    ("onset.validate", X_onset_validate); ("beat.validate", X_beat_validate);
    ("segment.validate_boundary", X_segment_validate_boundary);
-   ("multipitch.compute_accuracy", X_mp_compute_accuracy); ("multipitch.compute_err_score", X_mp_compute_err_score)].
+   ("multipitch.compute_accuracy", X_mp_compute_accuracy); ("multipitch.compute_err_score", X_mp_compute_err_score);
+   ("chord.directional_hamming_distance", X_chord_dhd); ("chord.overseg", X_chord_overseg); ("chord.underseg", X_chord_underseg);
+   ("util.validate_intervals", X_util_validate_intervals);
+   ("np.round", X_np_round); ("np.ravel", X_np_ravel); ("np.unique", X_np_unique); ("np.diff", X_np_diff); ("np.abs", X_np_abs);
+   ("ndarray.flatten", X_nd_flatten); ("np.allclose", X_np_allclose); ("np.subtract.outer", X_np_subtract_outer);
+   ("ndarray.min", X_nd_min); ("np.median", X_np_median); ("chord.encode_many", X_chord_encode_many)].
 Local Close Scope string_scope.
 
 Inductive wexp :=
@@ -59,7 +70,18 @@ Inductive wexp :=
 | WDiv (a b : wexp)                                       (* a / b on Python numbers *)
 | WCmp (op : wcmp) (a b : wexp)
 | WOr (a b : wexp) | WAnd (a b : wexp) | WNot (a : wexp)  (* Python or / and / not *)
-| WTrim (a : wexp).                                       (* a[1:-1] *)
+| WTrim (a : wexp)                                        (* a[1:-1] *)
+| WInit (a : wexp) | WTail (a : wexp)                     (* a[:-1], a[1:] *)
+| WSub (a b : wexp)                                       (* a - b on numbers (b may be a NumPy float: inf / nan) *)
+| WMin (a b : wexp)                                       (* builtin min(a, b) = b if b < a else a *)
+| WPairs (a b : wexp)                                     (* np.asarray(list(zip(a, b))) of two 1-d arrays: an (n,2) array *)
+| WNan                                                    (* np.nan *)
+| WColumn (a : wexp) (j : nat)                            (* a[:, j] of an (n,2) array, j = 0, 1 *)
+| WNeAny (a b : wexp)                                     (* (a != b).any() on int vectors (b may be None) *)
+| WEmptyList                                              (* [] (a Python list that will hold [start, end] pairs) *)
+| WAppendPair (l a b : wexp)                              (* the list l after l.append([a, b]) *)
+| WSetLastSnd (l a : wexp)                                (* the list l after l[-1][-1] = a *)
+| WAsArray (a : wexp).                                    (* np.array(l) of a list of pairs *)
 
 Inductive stmt :=
 | SLet (x : string) (e : wexp)
@@ -67,7 +89,10 @@ Inductive stmt :=
 | SCallLetN (xs : list string) (f : string) (pos : list wexp) (kws : list (string * wexp))    (* x1, ..., xk = f(pos, kws) *)
 | SIf (c : wexp) (a b : list stmt)
 | SReturn (es : list wexp)
-| SRaise (e : exn).
+| SRaise (e : exn)
+(* for v1, ..., vk in zip(s1, ..., sk): body -- the body only rebinds the state variables [st]; it is given as a
+   program of the parameters v1 .. vk, st1 .. stm that returns the new values of st1 .. stm *)
+| SFor (vars : list string) (seqs : list wexp) (st : list string) (body : list stmt).
 Definition sigt := list (string * option wexp).            (* parameters in order, with their literal defaults *)
 Record wprog := { wp_params : list string; wp_body : list stmt }.
 
@@ -75,7 +100,8 @@ Inductive rtree :=
 | TRet (es : list wexp) | TRaise (e : exn) | TNone | TBad
 | TIf (c : wexp) (a b : rtree) | TSeq (e : wexp) (t : rtree)
 | TCall (f : extfn) (args : list wexp) (t : rtree)        (* the result becomes the next [WRes] *)
-| TCallN (k : nat) (f : extfn) (args : list wexp) (t : rtree).   (* the result is a k-tuple; its components become the next k [WRes] *)
+| TCallN (k : nat) (f : extfn) (args : list wexp) (t : rtree)    (* the result is a k-tuple; its components become the next k [WRes] *)
+| TFor (step : rtree) (seqs inits : list wexp) (t : rtree).      (* step reads row ++ state as [WRes]; the final state becomes the next [WRes] *)
 
 (* ---- Python's binding of the arguments of a call to the parameters of the callee ---- *)
 Fixpoint kw_lookup (p : string) (kws : list (string * wexp)) : option wexp :=
@@ -119,7 +145,17 @@ Fixpoint subst (en : env) (a : wexp) : wexp :=
   | WAnd a b => WAnd (subst en a) (subst en b)
   | WNot a => WNot (subst en a)
   | WTrim a => WTrim (subst en a)
-  | WArg _ | WRes _ | WInt _ | WFloat _ | WBool _ | WNoneE => a
+  | WInit a => WInit (subst en a)
+  | WTail a => WTail (subst en a)
+  | WSub a b => WSub (subst en a) (subst en b)
+  | WMin a b => WMin (subst en a) (subst en b)
+  | WPairs a b => WPairs (subst en a) (subst en b)
+  | WColumn a j => WColumn (subst en a) j
+  | WNeAny a b => WNeAny (subst en a) (subst en b)
+  | WAppendPair l a b => WAppendPair (subst en l) (subst en a) (subst en b)
+  | WSetLastSnd l a => WSetLastSnd (subst en l) (subst en a)
+  | WAsArray a => WAsArray (subst en a)
+  | WArg _ | WRes _ | WInt _ | WFloat _ | WBool _ | WNoneE | WNan | WEmptyList => a
   end.
 Section Flat.
 Variable sigs : list (string * sigt).          (* the signatures read from the source (Gen/WrapFuncs.v) *)
@@ -152,6 +188,16 @@ Fixpoint flat_stmt (s : stmt) (k : env -> nat -> rtree) (en : env) (n : nat) : r
       TIf (subst en c) (fb a k en n) (fb b k en n)
   | SReturn es => TRet (map (subst en) es)
   | SRaise e => TRaise e
+  | SFor vars seqs st body =>
+      let fb := fix fb (l : list stmt) (k : env -> nat -> rtree) : env -> nat -> rtree :=
+                  match l with [] => k | s :: t => flat_stmt s (fb t k) end in
+      let res_env := fix res_env (ps : list string) (i : nat) : env :=
+                       match ps with [] => [] | p :: t => (p, WRes i) :: res_env t (S i) end in
+      let step := fb body (fun en' _ => TRet (map (fun x => subst en' (WVar x)) st))
+                     (res_env (vars ++ st) 0%nat) (length vars + length st)%nat in
+      TFor step (map (subst en) seqs) (map (fun x => subst en (WVar x)) st)
+           (k ((fix bindn (xs : list string) (i : nat) : env :=
+                  match xs with [] => en | x :: t => (x, WRes i) :: bindn t (S i) end) st n) (length st + n)%nat)
   end.
 Fixpoint flat_block (l : list stmt) (k : env -> nat -> rtree) : env -> nat -> rtree :=
   match l with [] => k | s :: t => flat_stmt s (flat_block t k) end.
@@ -168,7 +214,11 @@ Inductive wval :=
 | WQs (l : list Q)                   (* a 1-d float array *)
 | WM (m : list (nat * nat))          (* a matching: list of index pairs *)
 | WZs (l : list Z)                   (* a 1-d int array (per-frame counts) *)
-| WTup (l : list wval).              (* a tuple returned by a callee *)
+| WTup (l : list wval)               (* a tuple returned by a callee *)
+| WCol (l : list Q)                  (* an (n,1) float array *)
+| WMat (m : list (list Q))           (* an (n,k) float array, by rows *)
+| WZss (m : list (list Z))           (* an (n,k) int array, by rows (chord bitmaps) *)
+| WStrs (l : list str).              (* a list of strings (chord labels) *)
 Definition cond := (bool * exn)%type.
 Definition evr := option (wval * list cond).
 Definition ret (v : wval) : evr := Some (v, []).
@@ -192,6 +242,9 @@ Definition w_div (a b : wval) : evr :=      (* Python numbers: a zero divisor ra
   | _, _ => None end.
 Definition w_cmp (op : wcmp) (a b : wval) : evr :=
   match a, b with
+  | WNone, WNone => match op with WEq => ret (WB true) | WNe => ret (WB false) | _ => None end
+  | WNone, WZ _ | WZ _, WNone | WNone, WQ _ | WQ _, WNone =>
+      match op with WEq => ret (WB false) | WNe => ret (WB true) | _ => None end
   | WZ x, WZ y => ret (WB (match op with WEq => Z.eqb x y | WNe => negb (Z.eqb x y) | WLt => Z.ltb x y | WLe => Z.leb x y
                                      | WGt => Z.ltb y x | WGe => Z.leb y x end))
   | _, _ => match as_q a, as_q b with
@@ -200,6 +253,63 @@ Definition w_cmp (op : wcmp) (a b : wval) : evr :=
             | _, _ => None end
   end.
 Definition w_trim (v : wval) : evr := match v with WQs l => ret (WQs (removelast (tl l))) | _ => None end.
+Definition w_init (v : wval) : evr := match v with WQs l => ret (WQs (removelast l)) | _ => None end.
+Definition w_tail (v : wval) : evr := match v with WQs l => ret (WQs (tl l)) | _ => None end.
+Definition as_x (v : wval) : option xval :=
+  match v with WZ z => Some (Fin (inject_Z z)) | WQ q => Some (Fin q) | WX x => Some x | _ => None end.
+Definition xsubx (a b : xval) : xval :=
+  match a, b with
+  | Fin x, Fin y => Fin (x - y)
+  | NaN, _ | _, NaN => NaN
+  | Fin _, PInf => NInf | Fin _, NInf => PInf
+  | PInf, PInf | NInf, NInf => NaN
+  | PInf, _ => PInf | NInf, _ => NInf
+  end.
+Definition w_sub (a b : wval) : evr :=
+  match a, b with
+  | WZ x, WZ y => ret (WZ (x - y))
+  | _, _ => match as_q a, as_q b with
+            | Some x, Some y => ret (WQ (x - y))
+            | _, _ => match as_x a, as_x b with Some x, Some y => ret (WX (xsubx x y)) | _, _ => None end
+            end
+  end.
+Definition xltb (a b : xval) : bool :=
+  match a, b with
+  | Fin x, Fin y => qltb x y
+  | NInf, Fin _ | NInf, PInf | Fin _, PInf => true
+  | _, _ => false
+  end.
+(* builtin min(a, b): b if b < a else a (a comparison with nan is false) *)
+Definition w_min (a b : wval) : evr :=
+  match as_x a, as_x b with Some x, Some y => ret (if xltb y x then b else a) | _, _ => None end.
+Definition w_column (v : wval) (j : nat) : evr :=
+  match v, j with
+  | WIvs l, O => ret (WQs (map fst l)) | WIvs l, S O => ret (WQs (map snd l))
+  | _, _ => None end.
+(* (a != b).any() on two int vectors: some element differs (vectors of different lengths count as different;
+   chord bitmaps always have 12 entries); against None every element differs *)
+Fixpoint zneq_any (a b : list Z) : bool :=
+  match a, b with
+  | [], [] => false
+  | x :: a', y :: b' => negb (Z.eqb x y) || zneq_any a' b'
+  | _, _ => true
+  end.
+Definition w_neany (a b : wval) : evr :=
+  match a, b with
+  | WZs x, WZs y => ret (WB (zneq_any x y))
+  | WZs x, WNone => ret (WB (match x with [] => false | _ => true end))
+  | _, _ => None end.
+Definition w_append_pair (l a b : wval) : evr :=
+  match l, as_q a, as_q b with WIvs x, Some p, Some q => ret (WIvs (x ++ [(p, q)])) | _, _, _ => None end.
+Fixpoint set_last_snd (l : list (Q * Q)) (q : Q) : list (Q * Q) :=
+  match l with [] => [] | [v] => [(fst v, q)] | v :: t => v :: set_last_snd t q end.
+Definition w_set_last_snd (l a : wval) : evr :=
+  match l, as_q a with
+  | WIvs x, Some q => Some (WIvs (set_last_snd x q), [(negb (length x =? 0)%nat, IndexError)])
+  | _, _ => None end.
+Definition w_asarray (v : wval) : evr := match v with WIvs l => ret (WIvs l) | _ => None end.
+Definition w_pairs (a b : wval) : evr :=
+  match a, b with WQs x, WQs y => ret (WIvs (combine x y)) | _, _ => None end.
 Definition ebind (a : evr) (f : wval -> evr) : evr :=
   match a with Some (x, ca) => match f x with Some (y, cf) => Some (y, ca ++ cf) | None => None end | None => None end.
 Definition ebind2 (a b : evr) (f : wval -> wval -> evr) : evr :=
@@ -232,6 +342,22 @@ Fixpoint ev (a : wexp) : evr :=
                                        | Some t, Some (y, _) => ret (if t then y else x) | _, _ => None end)
   | WNot a => ebind (ev a) (fun x => match w_truth x with Some t => ret (WB (negb t)) | None => None end)
   | WTrim a => ebind (ev a) w_trim
+  | WInit a => ebind (ev a) w_init
+  | WTail a => ebind (ev a) w_tail
+  | WSub a b => ebind2 (ev a) (ev b) w_sub
+  | WMin a b => ebind2 (ev a) (ev b) w_min
+  | WPairs a b => ebind2 (ev a) (ev b) w_pairs
+  | WNan => ret (WX NaN)
+  | WColumn a j => ebind (ev a) (fun x => w_column x j)
+  | WNeAny a b => ebind2 (ev a) (ev b) w_neany
+  | WEmptyList => ret (WIvs [])
+  | WAppendPair l a b =>
+      match ev l, ev a, ev b with
+      | Some (l', c1), Some (a', c2), Some (b', c3) =>
+          match w_append_pair l' a' b' with Some (r, c4) => Some (r, c1 ++ c2 ++ c3 ++ c4) | None => None end
+      | _, _, _ => None end
+  | WSetLastSnd l a => ebind2 (ev l) (ev a) w_set_last_snd
+  | WAsArray a => ebind (ev a) w_asarray
   end.
 Fixpoint ev_list (l : list wexp) : option (list wval * list cond) :=
   match l with
@@ -239,6 +365,37 @@ Fixpoint ev_list (l : list wexp) : option (list wval * list cond) :=
   | x :: t => match ev x, ev_list t with Some (v, c), Some (vs, cs) => Some (v :: vs, c ++ cs) | _, _ => None end
   end.
 End Ev.
+(* the elements of a sequence that a for loop iterates over *)
+Definition w_elems (v : wval) : option (list wval) :=
+  match v with
+  | WQs l => Some (map WQ l) | WZs l => Some (map WZ l) | WZss m => Some (map WZs m) | WIvs l => None
+  | _ => None end.
+(* zip: rows of the sequences, as long as the shortest *)
+Fixpoint zip_rows (cols : list (list wval)) (fuel : nat) : list (list wval) :=
+  match fuel with
+  | O => []
+  | S f =>
+      match (fix heads (cs : list (list wval)) : option (list wval * list (list wval)) :=
+               match cs with
+               | [] => Some ([], [])
+               | [] :: _ => None
+               | (x :: t) :: r => match heads r with Some (hs, ts) => Some (x :: hs, t :: ts) | None => None end
+               end) cols with
+      | Some (row, rest) => match cols with [] => [] | _ => row :: zip_rows rest f end
+      | None => []
+      end
+  end.
+Fixpoint all_elems (vs : list wval) : option (list (list wval)) :=
+  match vs with
+  | [] => Some []
+  | v :: t => match w_elems v, all_elems t with Some c, Some r => Some (c :: r) | _, _ => None end
+  end.
+(* the loop: one step per row, on row ++ state *)
+Fixpoint loop_run (step : list wval -> wout (list wval)) (rows : list (list wval)) (st : list wval) : wout (list wval) :=
+  match rows with
+  | [] => WOK st
+  | row :: rest => wbind (step (row ++ st)) (fun st' => loop_run step rest st')
+  end.
 Fixpoint chk {A} (cs : list cond) (k : wout A) : wout A :=
   match cs with [] => k | (b, e) :: t => if b then chk t k else WEXN e end.
 Fixpoint run_tree (t : rtree) (results : list wval) : wout (list wval) :=
@@ -263,6 +420,17 @@ Fixpoint run_tree (t : rtree) (results : list wval) : wout (list wval) :=
                                                                           else WEXN ValueError       (* unpacking *)
                                                               | _ => WUNM end))
                        | None => WUNM end
+  | TFor step seqs inits t =>
+      match ev_list results seqs, ev_list results inits with
+      | Some (svs, c1), Some (st0, c2) =>
+          match all_elems svs with
+          | Some cols =>
+              chk (c1 ++ c2)
+                (wbind (loop_run (fun inp => run_tree step inp)
+                                 (zip_rows cols (match cols with c :: _ => length c | [] => O end)) st0)
+                       (fun st => run_tree t (results ++ st)))
+          | None => WUNM end
+      | _, _ => WUNM end
   end.
 End Eval.
 
